@@ -34,11 +34,13 @@ func TestC17Concurrent(t *testing.T) {
 		editEvery := rapid.SampledFrom([]int{2, 3, 10}).Draw(rt, "editEvery")
 		c := sim.New(sim.Options{AffinityMode: rapid.Bool().Draw(rt, "affinity")})
 		c.NoRecord = true
+		// template tolerations: for some lengths the slice decoded from the API has spare capacity
+		nTol := rapid.SampledFrom([]int{0, 0, 1, 9, 10, 11, 20, 21, 30}).Draw(rt, "templateTolerations")
 		for i := 0; i < n; i++ {
 			c.AddNode(fmt.Sprintf("n%d", i), map[string]string{"zone": gen.LabelVals[i%3], "tier": "a"}, nil)
 		}
 		strategy := gen.ConvergentStrategy(rt, gen.StrategyOpts{Canary: 2, NoPercentRepl: true})
-		c.Add(&edsv1.ExtendedDaemonSet{ObjectMeta: metav1.ObjectMeta{Namespace: "ns1", Name: "foo"}, Spec: edsv1.ExtendedDaemonSetSpec{Template: gen.LetterTemplate('A'), Strategy: strategy}})
+		c.Add(&edsv1.ExtendedDaemonSet{ObjectMeta: metav1.ObjectMeta{Namespace: "ns1", Name: "foo"}, Spec: edsv1.ExtendedDaemonSetSpec{Template: withTolerations(gen.LetterTemplate('A'), nTol), Strategy: strategy}})
 		var cnt int
 		var mu sync.Mutex
 		if failEvery > 0 {
@@ -97,7 +99,7 @@ func TestC17Concurrent(t *testing.T) {
 		worker("user", func(i int) {
 			if i%editEvery == 1 {
 				// frequent template changes: replica sets are created, superseded and collected while others sync
-				_ = c.EditEDS("ns1", "foo", func(x *edsv1.ExtendedDaemonSet) { x.Spec.Template = gen.LetterTemplate("ABCDG"[(i/editEvery)%5]) })
+				_ = c.EditEDS("ns1", "foo", func(x *edsv1.ExtendedDaemonSet) { x.Spec.Template = withTolerations(gen.LetterTemplate("ABCDG"[(i/editEvery)%5]), nTol) })
 			}
 			switch i % 10 {
 			case 6:
